@@ -443,6 +443,7 @@ impl Transform {
             }
             Cell::Pair(_, _) => {
                 let mut v = vec![];
+                let improper = template.is_improper_list();
                 let mut template_iter = template.iter().peekable();
                 let mut template = template_iter.next().unwrap();
 
@@ -477,7 +478,15 @@ impl Transform {
                         }
                     };
                 }
-                Some(Cell::new_list(v))
+                // the iterator yields the tail of a dotted template as its last item
+                match improper {
+                    false => Some(Cell::new_list(v)),
+                    true => match v.pop() {
+                        Some(tail) if v.is_empty() => Some(tail),
+                        Some(tail) => Some(Cell::new_improper_list(v, tail)),
+                        None => None,
+                    },
+                }
             }
             cell => Some(cell.clone()),
         }
